@@ -144,6 +144,7 @@ func (q *simQueue) actions(add func(Action)) {
 		t.id = fmt.Sprintf("%s/%s/%s", q.proc.name, q.name, k)
 		t.syncItem = k
 		t.ctrlName = q.ctrl
+		t.syncStart = s.Now()
 		t.readSet = map[string]string{}
 		s.mu.Unlock()
 		s.Stats["sync."+q.ctrl]++
